@@ -206,7 +206,8 @@ func normLog(s string, maskDirs ...string) string {
 var cliRuns int64
 
 // children get fewer scheduler threads than cores: 16 of them run side by side
-var childEnv = append(os.Environ(), "GOMAXPROCS=4")
+// (set in main after core.New, which points TMPDIR into the scratch directory)
+var childEnv []string
 
 func runSwagger(dir string, out string, args ...string) runRes {
 	atomic.AddInt64(&cliRuns, 1)
@@ -413,6 +414,56 @@ func diffTrees(a, b map[string]string) string {
 	return strings.Join(d, "; ")
 }
 
+type genObs struct {
+	r    runRes
+	tree map[string]string
+}
+
+// disjointOutcomes compares repeated observations of the two sides: "" when
+// every aspect (exit status, error message, each generated file) has an outcome
+// seen on both sides; else the aspect that never met.
+func disjointOutcomes(as, bs []genObs) string {
+	meet := func(f func(genObs) string) bool {
+		seen := map[string]bool{}
+		for _, o := range as {
+			seen[f(o)] = true
+		}
+		for _, o := range bs {
+			if seen[f(o)] {
+				return true
+			}
+		}
+		return false
+	}
+	if !meet(func(o genObs) string { return fmt.Sprint(o.r.Exit) }) {
+		return "exit"
+	}
+	files := map[string]bool{}
+	for _, o := range append(append([]genObs(nil), as...), bs...) {
+		for f := range o.tree {
+			files[f] = true
+		}
+	}
+	var bad []string
+	for f := range files {
+		f := f
+		if !meet(func(o genObs) string { return o.tree[f] }) {
+			bad = append(bad, f)
+		}
+	}
+	sort.Strings(bad)
+	if len(bad) > 0 {
+		if len(bad) > 6 {
+			bad = append(bad[:6], "…")
+		}
+		return strings.Join(bad, "; ")
+	}
+	if as[0].r.Exit != 0 && !meet(func(o genObs) string { return lastLines(o.r.Stderr, 1) }) {
+		return "report"
+	}
+	return ""
+}
+
 // classOf gives the signature label of a case.
 func classOf(cs caseT) string {
 	pl := cs.places()
@@ -597,8 +648,8 @@ func judgeSpec(cs caseT, only string) ([]finding, string) {
 			vs := sts
 			if !full {
 				vs = nil
-				if rot%2 == 0 {
-					vs = pick(rot / 2)
+				if rot%3 == 0 {
+					vs = pick(rot / 3)
 				}
 			}
 			for _, st := range vs {
@@ -643,17 +694,27 @@ func judgeSpec(cs caseT, only string) ([]finding, string) {
 				}
 				C.Eval(fmt.Sprintf("%s/in:%s/%s", cmd, st, class))
 				stat(fmt.Sprintf("generate_%s_exit_%d", cmd, a.Exit), 1)
-				switch {
-				case a.Exit != b.Exit:
-					add(finding{Cmd: cmd, Half: "in", Mode: st + ".exit", What: fmt.Sprintf("generate %s exits %d on the JSON rendering and %d on the %s YAML rendering: %s | %s", cmd, a.Exit, b.Exit, st, core.OneLine(lastLines(a.Stderr, 2)), core.OneLine(lastLines(b.Stderr, 2)))}, st, nil)
-				case diffTrees(ta, tb) != "":
-					add(finding{Cmd: cmd, Half: "in", Mode: st + ".tree", What: fmt.Sprintf("generate %s writes different trees for the JSON and the %s YAML rendering: %s", cmd, st, diffTrees(ta, tb))}, st, nil)
-				case a.Exit != 0 && lastLines(a.Stderr, 1) != lastLines(b.Stderr, 1):
-					// the error message is the report of a failed generation
-					a2, _, _ := sr.generate(cmd, "json~"+st)
-					if lastLines(a2.Stderr, 1) == lastLines(a.Stderr, 1) {
-						add(finding{Cmd: cmd, Half: "in", Mode: st + ".report", What: fmt.Sprintf("generate %s fails with different messages: %s | %s", cmd, core.OneLine(lastLines(a.Stderr, 1)), core.OneLine(lastLines(b.Stderr, 1)))}, st, nil)
-					}
+				if a.Exit == b.Exit && diffTrees(ta, tb) == "" && (a.Exit == 0 || lastLines(a.Stderr, 1) == lastLines(b.Stderr, 1)) {
+					continue
+				}
+				// code generation is not always a function of its input (colliding Go names are
+				// resolved in map order - C07's subject): a disagreement counts only if, over
+				// repeated runs, the outcomes of the two sides never meet
+				obsA, obsB := []genObs{{a, ta}}, []genObs{{b, tb}}
+				for round := 0; round < 4; round++ {
+					ra, tta, _ := sr.generate(cmd, "json~"+st)
+					rb, ttb, _ := sr.generate(cmd, st)
+					obsA, obsB = append(obsA, genObs{ra, tta}), append(obsB, genObs{rb, ttb})
+				}
+				switch what := disjointOutcomes(obsA, obsB); what {
+				case "":
+					stat("generate_outcome_unstable_between_identical_runs", 1)
+				case "exit":
+					add(finding{Cmd: cmd, Half: "in", Mode: st + ".exit", What: fmt.Sprintf("generate %s exits %d on the JSON rendering and %d on the %s YAML rendering (5 runs each): %s | %s", cmd, a.Exit, b.Exit, st, core.OneLine(lastLines(a.Stderr, 2)), core.OneLine(lastLines(b.Stderr, 2)))}, st, nil)
+				case "report":
+					add(finding{Cmd: cmd, Half: "in", Mode: st + ".report", What: fmt.Sprintf("generate %s fails with different messages (5 runs each): %s | %s", cmd, core.OneLine(lastLines(a.Stderr, 1)), core.OneLine(lastLines(b.Stderr, 1)))}, st, nil)
+				default:
+					add(finding{Cmd: cmd, Half: "in", Mode: st + ".tree", What: fmt.Sprintf("generate %s writes different trees for the JSON and the %s YAML rendering (5 runs each, no common outcome): %s", cmd, st, what)}, st, nil)
 				}
 			}
 		}
@@ -757,6 +818,11 @@ func (sr *specRunner) judgeInput(cmd, st, v string, a, b runRes) *finding {
 		return &finding{Cmd: cmd, Half: "in", Mode: st + ".exit", What: fmt.Sprintf("`%s` exits %d, `%s` exits %d: %s", short(a.Cmdline), a.Exit, short(b.Cmdline), b.Exit, core.OneLine(lastLines(b.Stderr, 2)))}
 	case !bytes.Equal(a.Out, b.Out):
 		return &finding{Cmd: cmd, Half: "in", Mode: st + ".output", What: fmt.Sprintf("`%s` and `%s` write different files", short(a.Cmdline), short(b.Cmdline))}
+	case strings.Contains(a.Stderr, "panic:") && strings.Contains(b.Stderr, "panic:"):
+		// the command crashes on this document whatever the format (not this property's
+		// subject); which of several panics comes first varies from run to run
+		stat("command_panics_in_both_formats", 1)
+		return nil
 	case reportBag(a.Stdout, v) != reportBag(b.Stdout, v) || reportBag(a.Stderr, "") != reportBag(b.Stderr, ""):
 		// the order of report entries varies from run to run on one and the same input
 		// (C07's subject): reports are compared as multisets of entries / lines
@@ -913,7 +979,7 @@ func passBSpec(rng *rand.Rand, held []placement) {
 		C.Inconclusive("no spec atom held in pass A: pass B has nothing to compose")
 		return
 	}
-	n := C.Pick(120, 600)
+	n := C.Pick(100, 600)
 	cases := make([]caseT, n)
 	for k := range cases {
 		cs := caseT{Family: "spec", Name: fmt.Sprintf("B%04d", k)}
